@@ -24,6 +24,8 @@ import (
 
 var errSource = errors.New("verif: source error")
 
+const consumerMark = -777
+
 func main() {
 	vkit.Main("C11", "exploration", func(r *vkit.Report) {
 		r.SetRule("case = one run of Batch or BatchFunc over an instrumented source with a pre-drawn arrival pattern (immediate, bursts, stalls longer than maxWait, " +
@@ -36,6 +38,8 @@ func main() {
 		n := r.Scale(1400, 30000)
 		r.Cases("run", n, 1, func(c *vkit.Case) { runCase(c, false) })
 		r.Cases("regress", r.Scale(60, 600), 1, func(c *vkit.Case) { runCase(c, true) })
+		r.Cases("timer-edge", r.Scale(240, 4000), 1, func(c *vkit.Case) { timerEdge(c) })
+		r.Floor("timer-edge trials in which the waiter arrived while full() was running", r.Table("timer-edge", "waiter arrived during full()"), 24)
 		r.Floor("under-filled batches delivered before the source ended (age judged)", r.Table("batches", "under-filled before end (age judged)"), 100)
 		r.Floor("waiters that gave up before a batch was ready", r.Table("consumer", "Next gave up (ctx)"), 100)
 		r.Floor("Close while the producer was ahead of an absent consumer", r.Table("close", "producer ahead, consumer absent"), 20)
@@ -225,6 +229,8 @@ func runCase(c *vkit.Case, regress bool) {
 
 	// ---- consumer ----
 	var batches []batchRec
+	var kept [][]int // batches the consumer appended one marker to, in place
+	appendingConsumer := rnd.Bool(0.5)
 	var gaveUp, nexts int
 	var finalErr error
 	finished := "" // End | error | closed
@@ -279,6 +285,12 @@ func runCase(c *vkit.Case, regress bool) {
 				case err == nil:
 					batches = append(batches, batchRec{Items: append([]int(nil), b...), Recv: at})
 					received += len(b)
+					if appendingConsumer && cap(b) > len(b) {
+						// A consumer may use the spare capacity of a batch it was given: the library
+						// must not keep using that memory for later batches.
+						ext := append(b, consumerMark)
+						kept = append(kept, ext)
+					}
 					fmt.Fprintf(&sig, "B%d;", len(b))
 				case err == stream.End:
 					finished = "End"
@@ -396,6 +408,13 @@ func runCase(c *vkit.Case, regress bool) {
 			}
 		}
 	}
+	for _, ext := range kept {
+		r.Count("consumer", "appended a marker into the spare capacity of a received batch", 1)
+		if ext[len(ext)-1] != consumerMark {
+			bad("batch-memory-reused", fmt.Sprintf("the consumer appended a marker to batch %v using the batch's spare capacity; later the library overwrote that cell with %d (the delivered slice still shares memory with the batch being built)", ext[:len(ext)-1], ext[len(ext)-1]))
+			return
+		}
+	}
 	switch finished {
 	case "End":
 		r.Count("runs", "read to End", 1)
@@ -477,3 +496,77 @@ func (e *endStamper) Next(ctx context.Context) (int, error) {
 }
 
 func (e *endStamper) Close() { e.inner.Close() }
+
+// timerEdge: the consumer arrives while the batcher is inside a slow full() call on a non-first
+// item; full() returns false a swept few microseconds before / after the batch turns maxWait old;
+// the source stays idle afterwards. The waiting consumer (live context) must be handed the aged,
+// under-filled batch; a consumer parked forever is decided by the goroutine dump.
+func timerEdge(c *vkit.Case) {
+	r := c.R
+	maxWait := 2 * time.Millisecond
+	delta := time.Duration(c.Index%80-16) * 250 * time.Nanosecond // -4us .. +15.75us
+	start := time.Now()
+	var arrive0 atomic.Int64
+	var inFull atomic.Int32
+	src := vkit.NewProbeStream("source", []int{1, 2})
+	src.HonourCtx = true
+	src.BlockAtEnd = true
+	src.Delay = func(i int) time.Duration {
+		if i == 1 {
+			return 300 * time.Microsecond
+		}
+		return -1
+	}
+	src.OnDeliver = func(i int) {
+		if i == 0 {
+			arrive0.Store(int64(time.Since(start)))
+		}
+	}
+	full := func(b []int) bool {
+		if len(b) == 2 {
+			inFull.Store(1)
+			target := time.Duration(arrive0.Load()) + maxWait - delta
+			for time.Since(start) < target {
+			}
+			inFull.Store(2)
+		}
+		return false
+	}
+	s := stream.BatchFunc[int](src, maxWait, full)
+	var got []int
+	var err error
+	arrivedDuring := false
+	done := make(chan struct{})
+	go func() {
+		defer close(done)
+		// arrive while full() is running
+		for inFull.Load() == 0 && time.Since(start) < 50*time.Millisecond {
+		}
+		vkit.SpinFor(100 * time.Microsecond)
+		arrivedDuring = inFull.Load() == 1
+		got, err = s.Next(context.Background())
+		s.Close()
+	}()
+	v, dump := vkit.Await(done, vkit.AwaitOpts{Soft: 3 * time.Second, Gap: 300 * time.Millisecond, Hard: 60 * time.Second})
+	r.Eval(1)
+	r.Count("timer-edge", "trials", 1)
+	switch v {
+	case vkit.AwaitStuck:
+		c.Violation("held-back", fmt.Sprintf("timer-edge: a consumer with a live context arrived while full() was running; full() returned %s relative to the batch turning maxWait=%s old; the source then stayed idle; the consumer was never handed the aged batch [1 2]", -delta, maxWait),
+			map[string]any{"delta": delta.String(), "goroutines": dump})
+		return
+	case vkit.AwaitInconclusive:
+		r.Inconclusive("timer-edge: neither finished nor provably parked")
+		return
+	}
+	if arrivedDuring {
+		r.Count("timer-edge", "waiter arrived during full()", 1)
+	}
+	if err != nil || len(got) != 2 || got[0] != 1 || got[1] != 2 {
+		c.Violation("timer-edge-batch", fmt.Sprintf("timer-edge: Next returned (%v, %v), want ([1 2], nil)", got, err), nil)
+		return
+	}
+	if m := src.Misuse(true); m != "" {
+		c.Violation("source-close", "timer-edge: after Close returned: "+m, nil)
+	}
+}
